@@ -172,13 +172,16 @@ def map_failure(d, meta, gen_lines, gen_name):
     label = None
     # 1. label: any span line range that carries a [label] comment
     for s in prim + [x for x in spans if not x.get("is_primary") and x["line_end"] - x["line_start"] <= 1]:
+        found = []
         for ln in range(s["line_start"], s["line_end"] + 1):
             if 1 <= ln <= len(gen_lines):
                 m = LABEL_RE.search(gen_lines[ln - 1])
-                if m:
-                    label = m.group(1)
-                    break
-        if label:
+                if m and m.group(1) not in found:
+                    found.append(m.group(1))
+        if found:
+            # a clause spanning several labelled conjuncts: Verus reports the whole clause, so it is
+            # named after all of them (up to three) rather than after the first only
+            label = "+".join(found[:3]) + ("+..." if len(found) > 3 else "")
             break
     # 2. function: containing extracted fn of any span
     for s in prim + spans:
